@@ -140,15 +140,15 @@ PROPS = {
         level_text="Fault enumeration: for each generated valid file the source fails at every Read/Seek call index k = 1..M (M counted in a fault-free open-and-iterate) "
                    "in six modes; the reader must report an error or deliver exactly the true rows, and must not panic.",
         level_note="Trusted: the harness's failing io.ReadSeeker; the injected error is a distinct sentinel, not io.EOF (premature EOF is C11).",
-        fixtures=["tiny", "flat24", "nest", "big"],
+        fixtures=["tiny", "flat24", "nest", "big", "bigtail"],
         gen_anchored=True,
-        stages=[dict(test="TestC10", kind="rapid", quick=48, thorough=960, timeout_thorough=5400), dict(test="TestC10Big", kind="enum", quick=1, thorough=1, shards=6)],
+        stages=[dict(test="TestC10", kind="rapid", quick=48, thorough=960, timeout_thorough=5400), dict(test="TestC10Big", kind="enum", quick=1, thorough=1, shards=7)],
         replay="TestReplayC10",
         rule="rapid workloads (<= 12 records, all codecs, page size often 1..4, fixtures tiny/flat24/nest) written by the library; for every call index k of the source and "
              "mode in {Read->(0,err), Read->(n/2 bytes,err), Seek->err} x {once, every call from k on} (mode applied to calls of the matching kind) the file is opened and iterated "
              "with the README loop; pass iff the constructor or Error() reports an error, or all rows were delivered and equal the written records; a panic is a violation. "
              "One evaluation = one (file, k, mode), all non-trivial (a fault is injected); distinct by (workload hash, k, mode). "
-             "Stage 2 (seed independent): the same enumeration on six fixed big files (fixture big: int64, string, *string, []int64, bool; 2100 records in one page, 1 or 2 row groups, 3 codecs).",
+             "Stage 2 (seed independent): the same enumeration on six fixed big files (fixture big: int64, string, *string, []int64, bool, []{int32,*int32}; 2100 records in one page, 1 or 2 row groups, 3 codecs) and one file (fixture bigtail: int64, string) whose last column is a single uncompressed page payload of about 5 MiB.",
     ),
     "C11": dict(
         level="fault_enumeration",
